@@ -30,11 +30,27 @@ ASSUMPTIONS = [
     "runs in which the implementation raises (assert dotprod < 10e-12 inside orthogonalize, empty minimum, division by "
     "zero) do not return a layout and are outside the property; they are counted in the evidence",
     "movable terminals are not generated: recenter_rectangles divides by the (zero) rectangle area of a terminal",
+    "several calls on one Spectral object: the model's object state is what __init__ stores once (graph, radii, fixed flags, "
+    "the centre matrix) plus the modules; the model is built from the netlist observed after construction and then runs on "
+    "ITS OWN state from call to call (only the iteration vectors of each call are taken from the record). The centre matrix "
+    "is faithful to the code: a call with trials > 0 wipes the movable entries for good, init mode reads the matrix as "
+    "stored at construction (not the modules' present centres) - neither touches the property",
+    "a history ends at the first call that raises; a call that raised inside the abstracted eigen-iteration is not replayed",
+    "recenter kernel (kind rc): a distance epsilon is always defined when recenter_rectangles runs (given, or the one a "
+    "Netlist holding the module derives) because the method never runs outside a netlist in FRAME; an axis is compared "
+    "exactly when every operation of the reference computation (w*h, sums left to right, one division, centre - quotient, "
+    "coordinate + increment) is exact in binary64 on that history (decided on the inputs alone), else within 16 roundings "
+    "at magnitude 64; the kernel oracle accepts a position within max(64e-9, 2 * distance epsilon) of the centre",
+    "shared Point objects (a centre shared by a module and its square) are not generated: create_square never runs for a "
+    "movable hard module with rectangles, and the netlist reader gives every module its own centre Point",
+    "kind cli (tools.spectral.spectral.main) is observed through the files it reads and writes and checked by the direct "
+    "oracle only; module and net order of the output file are not compared",
 ]
 
 THR = 10e-10
+SAMPLE_ALL = True        # how many of the recorded normalize calls are checked one by one (set per tier in run)
 ATOL = 10e-12
-TINY = [1e-9, 2e-9, 5e-10, 1.5e-9, 1e-12, 3e-9, 1e-10, 9.999e-10]
+TINY = [1e-9, 2e-9, 5e-10, 1.5e-9, 1e-12, 3e-9, 1e-10, 9.999e-10, math.nextafter(1e-9, 0.0), math.nextafter(1e-9, 1.0), 1e-9]
 
 
 # ================================================================ generators
@@ -64,7 +80,23 @@ def gen_normalize(rng):
     return {"kind": "normalize", "xs": xs, "spans": spans, "fx": fx}
 
 
+def gen_ortho_bound(rng):
+    """the normalised dot product after the step is exactly the assertion bound 10e-12 (the assertion is `<`), one
+    unit below it, one unit above it: a movable node is orthogonalised to 0, a fixed node with a mass keeps
+    cd = 2^q against ck = p + d, where 10e-12 = p / 2^q as a binary64 number; every operation is exact"""
+    atol = core.frac(ATOL)
+    p, b = atol.numerator, atol.denominator
+    a, m0 = dy(rng, -8, 8, 4), dy(rng, 1, 8, 4)
+    d = rng.choice([-1, 0, 0, 1])
+    ck, cd, mass, fx = [F(1), F(p + d)], [a, F(b)], [m0, F(1)], [False, True]
+    if rng.random() < 0.5:                       # a second movable node at the origin (it adds nothing to either sum)
+        ck, cd, mass, fx = [F(1), F(0), F(p + d)], [a, F(0), F(b)], [m0, dy(rng, 1, 8, 4), F(1)], [False, False, True]
+    return {"kind": "ortho", "coord": [ck, cd], "mass": mass, "dim": 1, "fx": fx, "style": "bound"}
+
+
 def gen_ortho(rng):
+    if rng.random() < 0.06:
+        return gen_ortho_bound(rng)
     n = rng.randrange(2, 7)
     dim = rng.choice([1, 1, 2])
     rows = []
@@ -74,6 +106,8 @@ def gen_ortho(rng):
         else:
             rows.append([dy(rng, -8, 8, 4) for _ in range(n)])
     fx = [rng.random() < 0.25 for _ in range(n)]
+    if rng.random() < 0.03:
+        fx = [True] * n                    # nothing to orthogonalise: 0.0 / 0.0
     zero_fixed = rng.random() < 0.8
     mass = [F(0) if (f and zero_fixed) else dy(rng, 0, 8, 4) if rng.random() < 0.9 else F(0) for f in fx]
     if rng.random() < 0.05:
@@ -136,11 +170,16 @@ def gen_die(rng):
         known = fx[i] or mode == "init" or (mode == "mixed" and rng.random() < 0.5)
         ini[0].append(dy(rng, 0, W, 8) if known else F(-1))
         ini[1].append(dy(rng, 0, H, 8) if known else F(-1))
+        if known and rng.random() < 0.12:
+            # `coord < 0` decides "unknown" (a fixed node must be known); size/2 becomes the coordinate 0, which is
+            # below the 10e-10 threshold of normalize
+            d = rng.randrange(2)
+            ini[d][-1] = rng.choice([F(0), F(0), (W, H)[d] / 2, (W, H)[d], F(-1, 8), F(-1, 2 ** 30)])
     return {"kind": "die", "adj": gen_graph(rng, n), "mass": mass, "W": W, "H": H, "ini": ini, "fx": fx,
             "seed": rng.randrange(0, 1000)}
 
 
-def gen_layout(rng):
+def gen_layout(rng, nmov=None):
     decimal = rng.random() < 0.25
     if decimal:
         W, H = F(rng.randrange(20, 200), 10), F(rng.randrange(20, 200), 10)
@@ -151,7 +190,7 @@ def gen_layout(rng):
     fw, fh = float(W), float(H)
     rmax = min(fw, fh) / 2
     nf = rng.choice([0, 0, 1, 1, 2, 3, 5])
-    nmov = rng.choice([4, 4, 5, 6, 7])
+    nmov = nmov or rng.choice([4, 4, 5, 6, 7])
     mods = []
     big = rng.random() < 0.06
 
@@ -168,6 +207,7 @@ def gen_layout(rng):
             rs.append([cx, cy + h / 2 + h / 8, w / 2, h / 4])            # north branch
         return rs
 
+    same_frac = rng.uniform(0.1, 0.6) if rng.random() < 0.1 else None     # equal areas: equal spans, ties in min()
     for i in range(nmov):
         if rng.random() < 0.3:
             rs = hard_rects()
@@ -176,6 +216,8 @@ def gen_layout(rng):
             mods.append({"name": f"M{i}", "kind": "hard", "rects": rs})
         else:
             frac = rng.uniform(0.03, 0.9)
+            if same_frac:
+                frac = same_frac
             if big and i == 0:
                 frac = 1 - rng.choice([1e-10, 3e-10, 1e-12, 1e-8, 0.0])
             a = math.pi * (frac * rmax) ** 2
@@ -191,6 +233,9 @@ def gen_layout(rng):
             if nf == 0 or rng.random() < 0.5:
                 m["center"] = [rng.uniform(0, fw), rng.uniform(0, fh)] if decimal or rng.random() < 0.3 else \
                     [dy(rng, 0, W, 8), dy(rng, 0, H, 8)]
+                if rng.random() < 0.08:
+                    # `coord < 0` decides "unknown": exactly 0 (on the die's edge, known), just below 0, -1
+                    m["center"][rng.randrange(2)] = rng.choice([F(0), F(0), F(-1, 8), -1e-9, F(-1)])
             mods.append(m)
     for i in range(rng.choice([0, 0, 1, 2])):
         cw, ch = W / 4, H / 4
@@ -211,8 +256,240 @@ def gen_layout(rng):
     for _ in range(rng.randrange(0, 4)):
         ar = min(n, rng.choice([2, 3, 3, 4, 5]))
         nets.append({"mods": [mods[i]["name"] for i in rng.sample(range(n), ar)], "w": float(rng.choice([1, 2, 0.5, 2.5]))})
+    if 8 <= n <= 20 and rng.random() < 0.5:
+        nets.append({"mods": [m["name"] for m in mods], "w": 1.0})          # one net through every module
     rng.shuffle(nets)
     return {"kind": "layout", "W": W, "H": H, "mods": mods, "nets": nets, "nf": nf, "seed": rng.randrange(0, 10000)}
+
+
+NAME_SETS = {
+    "prefix": ["A", "A_0", "A_1", "A1", "A10", "A_io", "AA", "A_", "_A", "A0", "A_0_0", "A11", "a", "A_1_0", "A2", "Aa"],
+    "words": ["no", "on", "null", "Y", "N", "yes", "True", "off", "n", "y", "NO", "Null", "false", "nan", "inf", "On"],
+}
+
+
+def decorate(rng, case):
+    """the same netlist in another dress: names that are prefixes of each other / YAML words, the netlist handed over
+    as a file, integral numbers written without a decimal point, rectangles listed with the trunk last"""
+    style = rng.choice(["plain", "plain", "plain", "prefix", "words"])
+    if style != "plain" and len(case["mods"]) <= len(NAME_SETS[style]):
+        names = list(NAME_SETS[style])
+        rng.shuffle(names)
+        ren = {m["name"]: names[i] for i, m in enumerate(case["mods"])}
+        case["mods"] = [dict(m, name=ren[m["name"]]) for m in case["mods"]]
+        case["nets"] = [dict(e, mods=[ren[n] for n in e["mods"]]) for e in case["nets"]]
+    case["names"] = style
+    case["form"] = rng.choice(["text", "text", "file"])
+    case["ints"] = rng.random() < 0.3
+    for m in case["mods"]:
+        if m["kind"] == "hard" and len(m["rects"]) > 1 and rng.random() < 0.3:
+            m["rects"] = m["rects"][1:] + m["rects"][:1]
+    return case
+
+
+def radius_needed(case):
+    rs = []
+    for m in case["mods"]:
+        a = float(m["area"]) if m["kind"] == "soft" else sum(float(r[2]) * float(r[3]) for r in m.get("rects", []))
+        rs.append(math.sqrt(a / math.pi))
+    return max(rs)
+
+
+def fixed_extent(case):
+    ex, ey = 0.0, 0.0
+    for m in case["mods"]:
+        if m["kind"] == "fixed":
+            for r in m["rects"]:
+                ex, ey = max(ex, float(r[0] + r[2] / 2)), max(ey, float(r[1] + r[3] / 2))
+        elif m["kind"] == "termfixed":
+            ex, ey = max(ex, float(m["center"][0])), max(ey, float(m["center"][1]))
+    return ex, ey
+
+
+def other_call(rng, case, init_ok=True):
+    """another call on the same object: another die (every disc still fits, the fixed modules still inside),
+    another trial count, another seed"""
+    need = 2 * radius_needed(case) * (1 + 1e-9)
+    ex, ey = fixed_extent(case)
+    W, H = case["W"], case["H"]
+    fs = [F(1), F(5, 4), F(3, 2), F(2), F(3, 4), F(1, 2), F(7, 8)]
+    cw = [W * f for f in fs] + [H]
+    ch = [H * f for f in fs] + [W]
+    cw = [w for w in cw if float(w) >= max(need, ex)] or [W]
+    ch = [h for h in ch if float(h) >= max(need, ey)] or [H]
+    nf = rng.choice([1, 1, 2, 3, 0] if init_ok else [1, 1, 2, 3])
+    return {"W": rng.choice(cw), "H": rng.choice(ch), "nf": nf, "seed": rng.randrange(0, 10000)}
+
+
+COINCIDE = [("same", "edge0"), ("edge1", "same"), ("same", "edge1"), ("edge0", "same"), ("same", "same"),
+            ("below+", "edge0"), ("edge1", "below-"), ("same", "orig"), ("orig", "same"), ("above+", "orig"),
+            ("orig", "above-"), ("below-", "below+"), ("above+", "edge1")]
+
+
+def gen_chain(rng, nmov=None):
+    for _ in range(40):
+        base = gen_layout(rng, nmov)
+        if any(m["kind"] == "hard" for m in base["mods"]):
+            break
+    decorate(rng, base)
+    style = rng.choice(["coincide", "coincide", "coincide", "session", "session", "rebuild"])
+    call0 = {"W": base["W"], "H": base["H"], "nf": base["nf"], "seed": base["seed"]}
+    all_centres = all(m["kind"] != "soft" or "center" in m or m.get("rects") for m in base["mods"])
+    if call0["nf"] == 0 and not all_centres:
+        call0["nf"] = 1
+    if style == "session":
+        calls = [call0] + [other_call(rng, base, init_ok=rng.random() < 0.3) for _ in range(rng.choice([1, 2, 2, 3]))]
+        if rng.random() < 0.3:
+            calls[1] = dict(calls[0])              # the very same call again on the same object
+        phases = [{"calls": calls}]
+    else:
+        if call0["nf"] == 0:
+            call0["nf"] = rng.choice([1, 2, 3])    # the position does not depend on where the modules start
+        hard = [m["name"] for m in base["mods"] if m["kind"] == "hard"]
+        if style == "coincide":
+            edit = {"hard": {n: list(rng.choice(COINCIDE)) for n in hard}}
+            calls1 = [dict(call0)]
+        else:
+            edit = {"hard": {n: ["same", "same"] for n in hard}}
+            calls1 = [rng.choice([dict(call0), dict(call0), dict(call0, nf=0), other_call(rng, base)])]
+        if rng.random() < 0.25:
+            calls1.append(other_call(rng, base, init_ok=False))
+        phases = [{"calls": [call0]}, {"edit": edit, "calls": calls1}]
+    return {"kind": "chain", "style": style, "W": base["W"], "H": base["H"], "mods": base["mods"], "nets": base["nets"],
+            "names": base["names"], "form": base["form"], "ints": base["ints"], "phases": phases}
+
+
+# ---------------------------------------------------------------- recenter_rectangles driven directly
+def _rep(q):
+    """is the rational q a binary64 number (normal range)?"""
+    q = F(q)
+    if q == 0:
+        return True
+    n, d = abs(q.numerator), q.denominator
+    if d & (d - 1):
+        return False
+    n >>= (n & -n).bit_length() - 1
+    return n.bit_length() <= 53 and d.bit_length() < 1000
+
+
+def rc_shapes(rng, style):
+    """rectangles [cx, cy, w, h] relative to (0, 0): a trunk and its branches, touching, not overlapping"""
+    if style == "single":
+        return [[F(0), F(0), dy(rng, F(1, 4), 6, 4), dy(rng, F(1, 4), 6, 4)]]
+    if style == "pow2":          # total area a power of two: 4+1+3, 3+1, 2+2, 12+4
+        return rng.choice([
+            [[F(0), F(0), F(2), F(2)], [F(3, 2), F(1, 2), F(1), F(1)], [F(0), F(-7, 4), F(2), F(3, 2)]],
+            [[F(0), F(0), F(3), F(1)], [F(2), F(0), F(1), F(1)]],
+            [[F(0), F(0), F(2), F(1)], [F(0), F(3, 2), F(1), F(2)]],
+            [[F(0), F(0), F(4), F(3)], [F(3), F(1, 2), F(2), F(2)]]])
+    if style == "equal":         # 2 or 4 rectangles of the same area (the centre is the mean of the centres)
+        w, h = dy(rng, F(1, 2), 3, 4), dy(rng, F(1, 2), 3, 4)
+        rs = [[F(0), F(0), w, h], [w, F(0), w, h]]
+        if rng.random() < 0.5:
+            rs += [[F(0), h, w, h], [w, h, w, h]]
+        return rs
+    if style == "tshape":        # symmetric about the trunk's vertical axis, areas differ (x exact, y maybe not)
+        w, h = dy(rng, 1, 4, 2), dy(rng, F(1, 2), 2, 4)
+        bw, bh = w / rng.choice([2, 4]), dy(rng, F(1, 4), 2, 4)
+        return [[F(0), F(0), w, h], [F(0), h / 2 + bh / 2, bw, bh]]
+    if style == "lshape":        # different areas, total 5 or 9/2 or 13/4: the centre is not dyadic
+        w = rng.choice([F(2), F(2), F(3, 2)])
+        return [[F(0), F(0), w, w], [w / 2 + F(1, 2), F(0), F(1), rng.choice([F(1), F(1, 2)])]]
+    if style == "many":          # a row of 9, 10, 11, 16, 17 or 33 equal rectangles on a wide trunk
+        n = rng.choice([9, 10, 11, 16, 17, 33])
+        return [[F(0), F(0), F(n), F(1)]] + [[F(i) - F(n - 1, 2), F(1), F(1, 2), F(1)] for i in range(n)]
+    # "random": 1-4 arbitrary rectangles (may overlap: only used on a module built directly)
+    return [[dy(rng, -4, 4, 8), dy(rng, -4, 4, 8), dy(rng, F(1, 4), 4, 4), dy(rng, F(1, 4), 4, 4)]
+            for _ in range(rng.randrange(1, 5))]
+
+
+def rc_centroid(rects):
+    a = sum((r[2] * r[3] for r in rects), F(0))
+    return (sum((r[0] * r[2] * r[3] for r in rects), F(0)) / a, sum((r[1] * r[2] * r[3] for r in rects), F(0)) / a)
+
+
+def rc_eps_of(case_eps, rects):
+    """the distance epsilon in force: given, or the one a Netlist derives (1e-12 * smallest dimension)"""
+    if case_eps is not None:
+        return F(case_eps)
+    return core.frac(float(min(min(r[2], r[3]) for r in rects)) * 1e-12)
+
+
+OFFS = ["zero", "zero", "below", "-below", "eps", "above", "-above", "grid", "far"]
+
+
+def rc_offset(rng, cls, eps):
+    k = 0
+    while F(2) ** (k - 1) >= eps:       # 2^k: the largest power of two <= eps ... strictly below 2 eps
+        k -= 1
+    while F(2) ** (k + 1) <= eps:
+        k += 1
+    sgn = -1 if cls.startswith("-") else 1
+    cls = cls.lstrip("-")
+    if cls == "zero":
+        return F(0)
+    if cls == "below":
+        return sgn * (F(2) ** (k - 2) if F(2) ** k == eps else F(2) ** (k - 1))
+    if cls == "eps":                     # exactly the epsilon (ties of `abs(inc) < eps`)
+        return sgn * F(eps) * rng.choice([1, -1])
+    if cls == "above":
+        return sgn * F(2) ** (k + 1 + rng.choice([0, 0, 3, 10]))
+    if cls == "grid":
+        return F(rng.choice([1, -1, 2, -3, 5, 8]), rng.choice([1, 2, 8, 64]))
+    return dy(rng, -16, 16, 8)
+
+
+def gen_rc(rng):
+    route = rng.choice(["bare", "bare", "netlist"])
+    style = rng.choice(["single", "pow2", "pow2", "equal", "equal", "tshape", "tshape", "lshape", "lshape", "many"] +
+                       (["random", "random", "none"] if route == "bare" else []))
+    ox, oy = dy(rng, 20, 40, 8), dy(rng, 20, 40, 8)
+    rects = [] if style == "none" else [[r[0] + ox, r[1] + oy, r[2], r[3]] for r in rc_shapes(rng, style)]
+    if style == "many" and rng.random() < 0.5:
+        rects = rects[:1] + rects[:0:-1]          # branches listed right to left
+    if route == "netlist" and len(rects) > 1 and rng.random() < 0.3:
+        rects = rects[1:] + rects[:1]             # the trunk is not listed first
+    eps = rng.choice([F(1, 2 ** 20), None, None]) if route == "bare" else rng.choice([None, None, F(1, 2 ** 20)])
+    case = {"kind": "rc", "route": route, "style": style, "eps": eps, "rects": rects, "ops": []}
+    if not rects:
+        case["ops"] = [["set", dy(rng, 0, 16, 8), dy(rng, 0, 16, 8)], ["rec"]]
+        return case
+    e = rc_eps_of(eps, rects)
+    gx, gy = rc_centroid(rects)
+    if not (_rep(gx) and _rep(gy)):
+        gx, gy = core.frac(float(gx)), core.frac(float(gy))
+
+    def target(base, cx_cls, cy_cls):
+        return [base[0] + rc_offset(rng, cx_cls, e), base[1] + rc_offset(rng, cy_cls, e)]
+    cls = (rng.choice(OFFS), rng.choice(OFFS))
+    if rng.random() < 0.5:                         # a coincidence in one axis only
+        cls = rng.choice([("zero", "far"), ("far", "zero"), ("below", "far"), ("far", "-below"), ("zero", "above"),
+                          ("above", "zero"), ("eps", "far"), ("far", "eps"), ("zero", "grid"), ("grid", "zero")])
+    c1 = target((gx, gy), *cls)
+    hist = rng.choice(["once", "once", "twice", "retarget", "mutate", "add", "put", "touch", "first"])
+    ops = [["set", c1[0], c1[1]], ["rec"]]
+    if hist == "twice":
+        ops.append(["rec"])
+    elif hist in ("retarget", "mutate"):
+        cls2 = rng.choice([("zero", "far"), ("far", "zero"), ("zero", "zero"), ("below", "grid"), ("grid", "-below"), ("far", "far")])
+        c2 = target(c1, *cls2)                     # relative to where the module now is
+        ops += [["set" if hist == "retarget" else "mut", c2[0], c2[1]], ["rec"]]
+    elif hist == "add":
+        last = rects[-1]
+        ops += [["touch"], ["add", [last[0] + rng.choice([F(8), F(-8)]), last[1] + F(8), dy(rng, F(1, 2), 2, 4), dy(rng, F(1, 2), 2, 4)]],
+                ["rec"]]
+    elif hist == "put":
+        k = rng.randrange(len(rects))
+        r = rects[k]
+        ops += [["touch"], ["put", k, [r[0] + c1[0] - gx + dy(rng, -2, 2, 8), r[1] + c1[1] - gy, r[2] * rng.choice([1, 1, 2]), r[3]]],
+                ["rec"]]
+    elif hist == "touch":
+        ops = [["touch"]] + ops + [["touch"], ["rec"]]
+    elif hist == "first" and rng.random() < 0.5:
+        ops = [["rec"]] + ops                      # before any centre was assigned
+    case["ops"] = ops
+    case["cls"] = list(cls)
+    return case
 
 
 # ================================================================ running the implementation
@@ -248,19 +525,19 @@ class Recorder:
         self.orig_norm, self.orig_die_sa, self.orig_die_sp = SA.normalize, SA.spectral_layout_die, SP.spectral_layout_die
         rec = self
 
-        def norm(x, max_span, is_fixed):
+        def norm(x, max_span, is_fixed, *more, **kw):
             before = list(x)
             try:
-                return rec.orig_norm(x, max_span, is_fixed)
+                return rec.orig_norm(x, max_span, is_fixed, *more, **kw)
             finally:
                 t = rec.trials[-1]
                 if not t["dims"] or t["dims"][-1]["id"] != id(max_span):
                     t["dims"].append({"id": id(max_span), "spans": list(max_span), "fx": list(is_fixed), "calls": []})
                 t["dims"][-1]["calls"].append((before, list(x)))
 
-        def die(adj, mass, size, initial, fixed):
+        def die(adj, mass, size, initial, fixed, *more, **kw):
             rec.trials.append({"dims": [], "ini": [list(r) for r in initial]})
-            r = rec.orig_die_sa(adj, mass, size, initial, fixed)
+            r = rec.orig_die_sa(adj, mass, size, initial, fixed, *more, **kw)
             rec.trials[-1]["ret"] = [list(r[0][0]), list(r[0][1])]
             rec.trials[-1]["wl"], rec.trials[-1]["iters"] = r[1], list(r[2])
             return r
@@ -294,7 +571,10 @@ def summarise(trials, rng):
                             mon["worst_excess"] = max(mon["worst_excess"], abs(y) - s)
             n = len(calls)
             idx = sorted(set(range(min(3, n))) | {n - 1}) if n else []
-            sample = sorted(set(idx) | {rng.randrange(n) for _ in range(4)}) if n else []
+            if SAMPLE_ALL:
+                sample = sorted(set(idx) | {rng.randrange(n) for _ in range(4)}) if n else []
+            else:       # quick tier: the first, the last and two other calls
+                sample = sorted({0, n - 1} | {rng.randrange(n) for _ in range(2)}) if n else []
             dims.append({"n": n, "spans": d["spans"], "fx": d["fx"], "replay": [calls[i][0] for i in idx],
                          "last_out": calls[-1][1] if n else None,
                          "sample": [[calls[i][0], calls[i][1]] for i in sample]})
@@ -302,9 +582,20 @@ def summarise(trials, rng):
     return out, mon
 
 
+YAML_WORDS = {"no", "yes", "on", "off", "null", "true", "false", "y", "n", "nan", "inf"}
+
+
 def layout_yaml(case):
+    ints = bool(case.get("ints"))
+
     def num(x):
-        return repr(float(x))
+        x = float(x)
+        return str(int(x)) if ints and x == int(x) and abs(x) < 2 ** 40 else repr(x)
+
+    def q(name):
+        return f'"{name}"' if name.lower() in YAML_WORDS else name
+    case = dict(case, mods=[dict(m, name=q(m["name"])) for m in case["mods"]],
+                nets=[dict(e, mods=[q(n) for n in e["mods"]]) for e in case["nets"]])
     lines = []
     for m in case["mods"]:
         k = m["kind"]
@@ -336,9 +627,313 @@ def snap(nl):
     return {"mods": ms, "nets": [[[b.name for b in e.modules], e.weight] for e in nl.edges]}
 
 
+def build_spectral(desc):
+    """Spectral(...) from the YAML text or from a file holding it"""
+    import os
+    import tempfile
+    from tools.spectral.spectral import Spectral
+    text = layout_yaml(desc)
+    if desc.get("form") == "file":
+        core.WORK_ROOT.mkdir(exist_ok=True)
+        fd, path = tempfile.mkstemp(suffix=".yaml", dir=str(core.WORK_ROOT))
+        try:
+            with os.fdopen(fd, "w") as f:
+                f.write(text)
+            return Spectral(path)
+        finally:
+            os.unlink(path)
+    return Spectral(text)
+
+
+def die_shape(desc, W, H):
+    from frame.geometry.geometry import Shape
+    w, h = float(W), float(H)
+    if desc.get("ints") and w == int(w) and h == int(h):
+        return Shape(int(w), int(h))
+    return Shape(w, h)
+
+
+def float_centroid(rects):
+    a = sum(r[2] * r[3] for r in rects)
+    return [sum(r[0] * r[2] * r[3] for r in rects) / a, sum(r[1] * r[2] * r[3] for r in rects) / a]
+
+
+def edited(case, after, edit, call, eps):
+    """the netlist description of the next phase: the modules as the previous phase left them, hard modules put back
+    on chosen coordinates (per axis: as returned, off by less / more than the distance epsilon, where they started,
+    or at the die's edge with the disc sticking out)"""
+    kinds = {m["name"]: m for m in case["mods"]}
+    size = [float(call["W"]), float(call["H"])]
+    mods = []
+    for ma in after["mods"]:
+        m0 = kinds[ma["name"]]
+        if m0["kind"] == "hard":
+            rects = [[r[0], r[1], r[2], r[3]] for r in ma["rects"]]
+            cen = float_centroid(rects)
+            orig = float_centroid([[float(v) for v in r] for r in m0["rects"]])
+            rad = math.sqrt(sum(r[2] * r[3] for r in rects) / math.pi)
+            d = [0.0, 0.0]
+            for ax, mode in enumerate(edit["hard"].get(ma["name"], ["same", "same"])):
+                sg = -1.0 if mode.endswith("-") else 1.0
+                if mode.startswith("below"):
+                    d[ax] = sg * eps / 4
+                elif mode.startswith("above"):
+                    d[ax] = sg * (4 * eps if ax == 0 else 2.0 ** -20)
+                elif mode == "orig":
+                    d[ax] = orig[ax] - cen[ax]
+                elif mode.startswith("edge"):
+                    # a YAML rectangle must have non-negative centre coordinates
+                    low = max([rad / 4] + [cen[ax] - r[ax] for r in rects])
+                    d[ax] = (low if mode == "edge0" else size[ax] - rad / 4) - cen[ax]
+            mods.append({"name": ma["name"], "kind": "hard", "rects": [[r[0] + d[0], r[1] + d[1], r[2], r[3]] for r in rects]})
+        elif m0["kind"] == "soft":
+            m = dict(m0)
+            if ma["center"] is not None:
+                m["center"] = list(ma["center"])
+            mods.append(m)
+        else:
+            mods.append(m0)
+    return dict(case, mods=mods)
+
+
+def run_chain(case):
+    from frame.geometry.geometry import Rectangle
+    rng = random.Random("sample-chain")
+    Rectangle.undefine_epsilon()
+    obs = {"phases": []}
+    try:
+        desc, prev, eps, last = case, None, None, None
+        for pi, ph in enumerate(case["phases"]):
+            if pi > 0:
+                if prev is None:
+                    break
+                desc = edited(case, prev, ph["edit"], last, eps)
+            Rectangle.undefine_epsilon()
+            try:
+                s = build_spectral(desc)
+            except AssertionError as e:
+                if pi == 0:
+                    raise
+                # the follow-up netlist written by the harness is not a legal input (e.g. a rectangle centre with a
+                # negative coordinate): the chain ends here
+                obs["rebuild_rejected"] = str(e)[:200]
+                break
+            eps = Rectangle.distance_epsilon()
+            pobs = {"before": snap(s), "adj": [[[e.node, e.weight] for e in es] for es in s._adj], "eps": eps, "steps": []}
+            obs["phases"].append(pobs)
+            prev, raised = None, False
+            for call in ph["calls"]:
+                with Recorder() as rec:
+                    random.seed(int(call["seed"]))
+                    st = guarded(lambda: s.spectral_layout(die_shape(desc, call["W"], call["H"]), int(call["nf"]), False))
+                st.update(W=call["W"], H=call["H"], nf=int(call["nf"]), seed=int(call["seed"]), after=snap(s))
+                st["trials"], st["monitor"] = summarise(rec.trials, rng)
+                pobs["steps"].append(st)
+                last = call
+                if "ok" not in st:
+                    raised = True
+                    break
+                prev = st["after"]
+            if raised:
+                break
+    finally:
+        Rectangle.undefine_epsilon()
+    mon = {"calls": 0, "tiny_entries": 0, "bound_broken": 0, "worst_excess": 0.0}
+    for ph in obs["phases"]:
+        for st in ph["steps"]:
+            for key in ("calls", "tiny_entries", "bound_broken"):
+                mon[key] += st["monitor"][key]
+            mon["worst_excess"] = max(mon["worst_excess"], st["monitor"]["worst_excess"])
+    obs["monitor"] = mon
+    if obs["phases"] and obs["phases"][-1]["steps"] and "ok" in obs["phases"][-1]["steps"][-1]:
+        obs["ok"] = None
+    else:
+        last_st = obs["phases"][-1]["steps"][-1] if obs["phases"] and obs["phases"][-1]["steps"] else {}
+        obs["raised"] = last_st.get("raised", "?")
+    return obs
+
+
+def gen_cli(rng):
+    """the command line tool: netlist file, die as '<W>x<H>' / die file / YAML text, --init or --bestof, output file"""
+    case = decorate(rng, gen_layout(rng))
+    case["kind"] = "cli"
+    case["die_form"] = rng.choice(["string", "string", "file", "text"])
+    return case
+
+
+def canon_snapshot(sn):
+    """module and net order do not matter when the result is read back from a file"""
+    return {"mods": sorted(sn["mods"], key=lambda m: m["name"]),
+            "nets": sorted([[sorted(e[0]), e[1]] for e in sn["nets"]], key=repr)}
+
+
+def run_cli(case):
+    import shutil
+    import tempfile
+    from ruamel.yaml import YAML
+    from frame.geometry.geometry import Rectangle
+    from frame.netlist.netlist import Netlist
+    import tools.spectral.spectral as SP
+    core.WORK_ROOT.mkdir(exist_ok=True)
+    d = tempfile.mkdtemp(prefix="c14cli", dir=str(core.WORK_ROOT))
+    Rectangle.undefine_epsilon()
+    try:
+        text = layout_yaml(case)
+        inp, out = f"{d}/in.yaml", f"{d}/out.yaml"
+        with open(inp, "w") as f:
+            f.write(text)
+        before = snap(Netlist(text))
+        Rectangle.undefine_epsilon()
+
+        def num(x):
+            x = float(x)
+            return str(int(x)) if case.get("ints") and x == int(x) else repr(x)
+        die = f"{num(case['W'])}x{num(case['H'])}"
+        if case["die_form"] == "text":
+            die = f"{{width: {num(case['W'])}, height: {num(case['H'])}}}"
+        elif case["die_form"] == "file":
+            die = f"{d}/die.yaml"
+            with open(die, "w") as f:
+                f.write(f"width: {num(case['W'])}\nheight: {num(case['H'])}\n")
+        args = [inp, "--die", die, "-o", out] + (["--init"] if int(case["nf"]) == 0 else ["--bestof", str(int(case["nf"]))])
+        random.seed(int(case["seed"]))
+        obs = guarded(lambda: SP.main("spectral", args))
+        obs["before"] = canon_snapshot(before)
+        if "ok" in obs:
+            Rectangle.undefine_epsilon()
+            with open(out) as f:
+                tree = YAML(typ="safe").load(f.read())
+            after = snap(Netlist(out))
+            b_by_name = {m["name"]: m for m in before["mods"]}
+            for m in after["mods"]:
+                c = tree["Modules"][m["name"]].get("center")
+                m["center"] = None if c is None else [float(c[0]), float(c[1])]     # as written, not as re-derived
+                mb = b_by_name.get(m["name"])
+                if mb and len(mb["rects"]) == len(m["rects"]):
+                    m["rects"] = [list(r[:4]) + list(rb[4:]) for r, rb in zip(m["rects"], mb["rects"])]
+            obs["after"] = canon_snapshot(after)
+        return obs
+    finally:
+        Rectangle.undefine_epsilon()
+        shutil.rmtree(d, ignore_errors=True)
+
+
+RC_YAML = """Modules: {{
+  H: {{rectangles: [{rs}], hard: true}},
+  Z: {{area: 400.0, center: [50.0, 50.0]}}
+}}
+Nets: [[H, Z]]
+"""
+
+
+def rc_snap(m):
+    return {"center": None if m.center is None else [m.center.x, m.center.y],
+            "rects": [[r.center.x, r.center.y, r.shape.w, r.shape.h, r.fixed, r.hard, r.region, r.location.name]
+                      for r in m.rectangles]}
+
+
+def run_rc(case):
+    """a movable hard module, built directly or by a Netlist, then driven through its public interface"""
+    from frame.geometry.geometry import Rectangle, Point, Shape
+    from frame.netlist.module import Module
+    from frame.netlist.netlist import Netlist
+    Rectangle.undefine_epsilon()
+    try:
+        if case["eps"] is not None:
+            Rectangle.set_epsilon(float(case["eps"]))
+        if case["route"] == "netlist":
+            rs = ", ".join("[" + ", ".join(repr(float(v)) for v in r) + "]" for r in case["rects"])
+            nl = Netlist(RC_YAML.format(rs=rs))
+            m = nl.get_module("H")
+        else:
+            m = Module("H", hard=True)
+            for r in case["rects"]:
+                m.add_rectangle(Rectangle(center=Point(float(r[0]), float(r[1])), shape=Shape(float(r[2]), float(r[3])),
+                                          hard=True))
+            if not Rectangle.epsilon_defined() and case["rects"]:
+                # what a Netlist holding this module would have defined
+                Rectangle.set_epsilon(min(min(float(r[2]), float(r[3])) for r in case["rects"]) * 1e-12)
+        obs = {"init": rc_snap(m), "eps": Rectangle.distance_epsilon() if Rectangle.epsilon_defined() else None, "trace": []}
+        for i, op in enumerate(case["ops"]):
+            try:
+                if op[0] == "set":
+                    m.center = Point(float(op[1]), float(op[2]))
+                elif op[0] == "mut":
+                    if m.center is None:
+                        m.center = Point(float(op[1]), float(op[2]))
+                    else:
+                        m.center.x, m.center.y = float(op[1]), float(op[2])
+                elif op[0] == "add":
+                    r = op[1]
+                    m.add_rectangle(Rectangle(center=Point(float(r[0]), float(r[1])), shape=Shape(float(r[2]), float(r[3])),
+                                              hard=True))
+                elif op[0] == "put":
+                    r, t = m.rectangles[int(op[1])], op[2]
+                    r.center.x, r.center.y = float(t[0]), float(t[1])
+                    r.shape = Shape(float(t[2]), float(t[3]))
+                elif op[0] == "touch":
+                    _ = m.area_rectangles, m.area(), m.num_rectangles
+                elif op[0] == "rec":
+                    before = rc_snap(m)
+                    m.recenter_rectangles()
+                    obs["trace"].append({"at": i, "before": before, "after": rc_snap(m)})
+            except (ZeroDivisionError, AssertionError) as e:
+                obs["raised"], obs["at"] = EXC[type(e).__name__], i
+                return obs
+        obs["ok"] = rc_snap(m)
+        return obs
+    finally:
+        Rectangle.undefine_epsilon()
+
+
+def rc_exact(init, ops):
+    """(x exact?, y exact?): is every operation of the reference computation (areas w*h, sums left to right, one
+    division, centre - quotient, coordinate + increment) exact in binary64 on this history?  Decided on the inputs alone."""
+    rects = [[core.frac(v) for v in r[:4]] for r in init["rects"]]
+    centre = None if init["center"] is None else [core.frac(v) for v in init["center"]]
+    exact = [True, True]
+    for op in ops:
+        if op[0] in ("set", "mut"):
+            centre = [core.frac(float(op[1])), core.frac(float(op[2]))]
+        elif op[0] == "add":
+            rects.append([core.frac(float(v)) for v in op[1]])
+        elif op[0] == "put":
+            rects[int(op[1])] = [core.frac(float(v)) for v in op[2]]
+        elif op[0] == "rec":
+            if centre is None or not rects:
+                break
+            areas = [r[2] * r[3] for r in rects]
+            tot, ok_a = F(0), True
+            for a in areas:
+                tot += a
+                ok_a = ok_a and _rep(a) and _rep(tot)
+            if tot == 0:
+                break
+            for ax in (0, 1):
+                acc, ok = F(0), ok_a
+                for r, a in zip(rects, areas):
+                    ok = ok and _rep(r[ax] * a)
+                    acc += r[ax] * a
+                    ok = ok and _rep(acc)
+                g = acc / tot
+                inc = centre[ax] - g
+                ok = ok and _rep(g) and _rep(inc)
+                for r in rects:
+                    r[ax] += inc
+                    ok = ok and _rep(r[ax])
+                exact[ax] = exact[ax] and ok
+    return exact
+
+
 def run_impl(case):
     import tools.spectral.spectral_algorithm as SA
     k = case["kind"]
+    if k == "rc":
+        return run_rc(case)
+    if k == "chain":
+        return run_chain(case)
+    if k == "cli":
+        return run_cli(case)
     if k == "normalize":
         x = fl(case["xs"])
 
@@ -375,12 +970,12 @@ def run_impl(case):
         from tools.spectral.spectral import Spectral
         Rectangle.undefine_epsilon()
         try:
-            s = Spectral(layout_yaml(case))
+            s = build_spectral(case)
             before = snap(s)
             adj = [[[e.node, e.weight] for e in es] for es in s._adj]
             with Recorder() as rec:
                 random.seed(int(case["seed"]))
-                obs = guarded(lambda: s.spectral_layout(Shape(float(case["W"]), float(case["H"])), int(case["nf"]), False))
+                obs = guarded(lambda: s.spectral_layout(die_shape(case, case["W"], case["H"]), int(case["nf"]), False))
             obs["before"], obs["after"], obs["adj"] = before, snap(s), adj
             obs["trials"], obs["monitor"] = summarise(rec.trials, rng)
         finally:
@@ -451,6 +1046,84 @@ def gsmod(m, W, H):
     return f"(mkSmod {c} {gbool(m['flags'][0])} {gbool(m['flags'][1])} {gbool(m['flags'][2])} {rs} {gq(rad)})"
 
 
+def grc_rect(r, like=None):
+    like = like or [None, None, None, None, False, True, "_", "NO_POLYGON"]
+    return (f"(mkRect {gq(float(r[0]))} {gq(float(r[1]))} {gq(float(r[2]))} {gq(float(r[3]))} {gbool(like[4])} "
+            f"{gbool(like[5])} {gstr(like[6])} {fr.LOCS[like[7]]})")
+
+
+def grc_state(sn):
+    c = gopt(None if sn["center"] is None else f"({gq(sn['center'][0])}, {gq(sn['center'][1])})")
+    return c, glist([grc_rect(r, r) for r in sn["rects"]])
+
+
+def rc_to_coq(case, obs):
+    c0, rs0 = grc_state(obs["init"])
+    ops = []
+    for op in case["ops"]:
+        if op[0] in ("set", "mut"):
+            ops.append(f"RcSet ({gq(float(op[1]))}, {gq(float(op[2]))})")
+        elif op[0] == "add":
+            ops.append(f"RcAdd {grc_rect(op[1])}")
+        elif op[0] == "put":
+            ops.append(f"RcPut {gnat(int(op[1]))} {grc_rect(op[2], obs['init']['rects'][int(op[1])])}")
+        elif op[0] == "rec":
+            ops.append("RcRecenter")
+    if "ok" in obs:
+        c, rs = grc_state(obs["ok"])
+        o = f"(Ok ({c}, {rs}))"
+    else:
+        o = f"(@{obs['raised']} (option vec * list Rect))"
+    ex, ey = rc_exact(obs["init"], case["ops"])
+    return f"rc_ok {gbool(ex)} {gbool(ey)} 16 (qc 64 1) {glist(ops)} (mkRc {c0} {rs0}) {o}"
+
+
+def trial_checks(trials, adj):
+    """the kernels inside a call: sampled normalize calls, the wire length the selection is based on"""
+    parts = sample_checks(trials)
+    for t in trials:
+        if t["ret"] is not None:
+            wtol = gq(F(1, 10 ** 9) * core.frac(max(1.0, abs(t["wl"]))))
+            parts.append(f"aclose {wtol} (wirelength {adj} [{gl(t['ret'][0])}; {gl(t['ret'][1])}]) {gq(t['wl'])}")
+    return parts
+
+
+def selected_trials(trials, nf):
+    """the recorded trials as the model replays them; two trials with the same wire length up to rounding (mirrored
+    solutions): which one wins is decided by the last bit, so the selected trial is replayed alone"""
+    wls = [t["wl"] for t in trials]
+    srt = sorted(wls)
+    if len(srt) >= 2 and srt[1] - srt[0] <= 1e-9 * max(1.0, srt[0]):
+        return [trials[wls.index(srt[0])]], 1
+    return trials, nf
+
+
+def chain_to_coq(case, obs):
+    parts = []
+    for ph in obs["phases"]:
+        adj = gadj(ph["adj"])
+        size = max([1.0] + [max(float(st["W"]), float(st["H"])) for st in ph["steps"]])
+        tol = gq(F(1, 10 ** 9) * core.frac(size))
+        ms = glist([gsmod(m, None, None) for m in ph["before"]["mods"]])
+        steps = []
+        for st in ph["steps"]:
+            W, H = gq(float(st["W"])), gq(float(st["H"]))
+            parts += trial_checks(st["trials"], adj)
+            ntr = max(1, st["nf"])
+            complete = len(st["trials"]) == ntr and all(t["ret"] is not None for t in st["trials"])
+            if "ok" in st:
+                trs, nf = selected_trials(st["trials"], st["nf"])
+                out = glist([gsmod(m, None, None) for m in st["after"]["mods"]])
+                steps.append(f"({W}, {H}, {gnat(nf)}, {glist([gtrial(t) for t in trs])}, Some {out})")
+                parts.append(gbool(all(len(t["dims"]) == 2 and t["dims"][0]["last_out"] == t["ret"][0]
+                                       and t["dims"][1]["last_out"] == t["ret"][1] for t in st["trials"])))
+            elif complete or not st["trials"]:
+                # raised outside the abstracted iteration: the model must fail as well
+                steps.append(f"({W}, {H}, {gnat(st['nf'])}, {glist([gtrial(t) for t in st['trials']])}, @None (list (smod Qc)))")
+        parts.append(f"session_from {gq(THR)} {tol} {ms} {adj} {glist(steps)}")
+    return " && ".join(f"({p})" for p in parts) if parts else "true"
+
+
 def to_coq(case, obs):
     k = case["kind"]
     if k == "normalize":
@@ -484,6 +1157,12 @@ def to_coq(case, obs):
     if k == "wl":
         coord = glist([gl(r) for r in case["coord"]])
         return f"Qceqb (wirelength {gadj(case['adj'])} {coord}) {gq(obs['ok'])}"
+    if k == "rc":
+        return rc_to_coq(case, obs)
+    if k == "cli":
+        return "true"                      # observed through files: the direct oracle only
+    if k == "chain":
+        return chain_to_coq(case, obs)
     W, H = gq(float(case["W"])), gq(float(case["H"]))
     tol = gq(F(1, 10 ** 9) * core.frac(max(float(case["W"]), float(case["H"]))))
     if k == "die":
@@ -495,6 +1174,10 @@ def to_coq(case, obs):
             # "the last call per dimension must produce the returned coordinates" - exactly
             parts.append(gbool(len(t["dims"]) == 2 and t["dims"][0]["last_out"] == t["ret"][0]
                                and t["dims"][1]["last_out"] == t["ret"][1]))
+        elif "raised" in obs and not t["dims"]:
+            # raised before the first normalize (the asserts on the start coordinates): the model must not return either
+            parts.append(f"die_fails {gq(THR)} {W} {H} {gl(obs['radius'])} {gbools(case['fx'])} {gl(case['ini'][0])} "
+                         f"{gl(case['ini'][1])} {gtrial(t)}")
         return " && ".join(f"({p})" for p in parts) if parts else "true"
     if k == "layout":
         parts = sample_checks(obs["trials"])
@@ -531,15 +1214,16 @@ def to_coq(case, obs):
 ULP = F(2) ** -52
 
 
-def admissible(case, obs):
-    ms = obs["before"]["mods"]
+def admissible_nl(W, H, b):
+    """the quantifier: >= 4 movable modules, every module on some net, every disc fits in the die"""
+    ms = b["mods"]
     movable = [m for m in ms if not m["flags"][0]]
     if len(movable) < 4:
         return False
-    on_net = {n for e, _ in obs["before"]["nets"] for n in e}
+    on_net = {n for e, _ in b["nets"] for n in e}
     if any(m["name"] not in on_net for m in ms):
         return False
-    rmax = min(float(case["W"]), float(case["H"])) / 2
+    rmax = min(float(W), float(H)) / 2
     return all(math.sqrt(m["area"] / math.pi) <= rmax for m in ms)
 
 
@@ -549,6 +1233,57 @@ def centroid(rects):
         return None
     return (sum((core.frac(r[0]) * core.frac(r[2]) * core.frac(r[3]) for r in rects), F(0)) / a,
             sum((core.frac(r[1]) * core.frac(r[2]) * core.frac(r[3]) for r in rects), F(0)) / a)
+
+
+def layout_oracle(Wc, Hc, b, a):
+    """the property text on one call: b = the netlist before the call, a = after"""
+    W, H = core.frac(float(Wc)), core.frac(float(Hc))
+    size = max(W, H)
+    if not admissible_nl(W, H, b):
+        return None
+    if b["nets"] != a["nets"]:
+        return "the nets changed"
+    if [m["name"] for m in b["mods"]] != [m["name"] for m in a["mods"]]:
+        return "the modules changed"
+    for mb, ma in zip(b["mods"], a["mods"]):
+        nm = mb["name"]
+        if (mb["area"], mb["regions"], mb["flags"]) != (ma["area"], ma["regions"], ma["flags"]):
+            return f"module {nm}: area or flags changed"
+        if [r[2:] for r in mb["rects"]] != [r[2:] for r in ma["rects"]]:
+            return f"module {nm}: the shapes of its rectangles changed"
+        fixed, hard, term = mb["flags"][0], mb["flags"][1], mb["flags"][2]
+        if fixed:
+            if mb["rects"] != ma["rects"]:
+                return f"fixed module {nm}: rectangles moved"
+            if ma["center"] is not None and mb["center"] is not None:
+                if any(abs(core.frac(p) - core.frac(q)) > 4 * ULP * max(size, abs(core.frac(q)))
+                       for p, q in zip(ma["center"], mb["center"])):
+                    return f"fixed module {nm}: centre moved from {mb['center']} to {ma['center']}"
+            continue
+        tol = 4 * ULP * size
+        if hard and mb["rects"]:
+            dx = [core.frac(ra[0]) - core.frac(rb[0]) for ra, rb in zip(ma["rects"], mb["rects"])]
+            dy_ = [core.frac(ra[1]) - core.frac(rb[1]) for ra, rb in zip(ma["rects"], mb["rects"])]
+            mag = max([size] + [abs(core.frac(r[i])) for r in mb["rects"] for i in (0, 1)])
+            if max(dx) - min(dx) > 4 * ULP * mag or max(dy_) - min(dy_) > 4 * ULP * mag:
+                return f"hard module {nm} was not moved rigidly: rectangle displacements {[(float(p), float(q)) for p, q in zip(dx, dy_)]}"
+        elif mb["rects"] != ma["rects"]:
+            return f"module {nm}: rectangles of a soft module changed"
+        if ma["center"] is not None:
+            pos = (core.frac(ma["center"][0]), core.frac(ma["center"][1]))
+        else:
+            pos = centroid(ma["rects"])
+            tol = 16 * ULP * size
+            if pos is None:
+                return f"module {nm} has neither a centre nor rectangles after placement"
+        if not all(math.isfinite(float(p)) for p in pos):
+            return f"module {nm}: position not finite"
+        r = core.frac(math.sqrt(mb["area"] / math.pi))
+        ex = max(abs(pos[0] - W / 2) + r - W / 2, abs(pos[1] - H / 2) + r - H / 2)
+        if ex > tol:
+            return (f"module {nm}: the disc of radius {float(r)!r} centred at ({float(pos[0])!r}, {float(pos[1])!r}) "
+                    f"leaves the die {float(W)} x {float(H)} by {float(ex)!r}")
+    return None
 
 
 def oracle(case, obs):
@@ -565,6 +1300,35 @@ def oracle(case, obs):
         return None
     if k in ("ortho", "centroids", "dot", "wl"):
         return None                      # no property-level statement about these kernels on their own
+    if k == "chain":
+        # the property, call by call: the state of the object before the call is the "netlist" of that call
+        for pi, ph in enumerate(obs["phases"]):
+            cur = ph["before"]
+            for si, st in enumerate(ph["steps"]):
+                if "ok" not in st:
+                    break
+                why = layout_oracle(st["W"], st["H"], cur, st["after"])
+                if why:
+                    return f"phase {pi} call {si} (die {float(st['W'])} x {float(st['H'])}, {st['nf']} trials, seed {st['seed']}): {why}"
+                cur = st["after"]
+        return None
+    if k == "rc":
+        # "at its position" up to the library's own notion of equal distances (the distance epsilon in force)
+        dt = max(F(1, 10 ** 9) * 64, 2 * core.frac(obs.get("eps") or 0.0))
+        for t in obs["trace"]:
+            b, a = t["before"], t["after"]
+            if [r[2:] for r in b["rects"]] != [r[2:] for r in a["rects"]]:
+                return "recenter_rectangles changed the shape, role or number of the rectangles"
+            dx = [core.frac(ra[0]) - core.frac(rb[0]) for ra, rb in zip(a["rects"], b["rects"])]
+            dy_ = [core.frac(ra[1]) - core.frac(rb[1]) for ra, rb in zip(a["rects"], b["rects"])]
+            if max(dx) - min(dx) > dt or max(dy_) - min(dy_) > dt:
+                return f"recenter_rectangles did not move the rectangles rigidly: displacements {[(float(p), float(q)) for p, q in zip(dx, dy_)]}"
+            pos = centroid(a["rects"])
+            want = b["center"]
+            if any(abs(pos[i] - core.frac(want[i])) > dt for i in (0, 1)):
+                return (f"after recenter_rectangles the module (area-weighted centre of its rectangles) is at "
+                        f"({float(pos[0])!r}, {float(pos[1])!r}), not at its centre ({want[0]!r}, {want[1]!r})")
+        return None
     W, H = core.frac(float(case["W"])), core.frac(float(case["H"]))
     size = max(W, H)
     if k == "die":
@@ -581,52 +1345,10 @@ def oracle(case, obs):
                     if span >= 0 and abs(core.frac(y)) > span + 4 * ULP * size:
                         return f"node {i}: coordinate {y!r} in dimension {d} exceeds its span {float(span)!r}"
         return None
-    if k == "layout":
-        if "ok" not in obs or not admissible(case, obs):
+    if k in ("layout", "cli"):
+        if "ok" not in obs:
             return None
-        b, a = obs["before"], obs["after"]
-        if b["nets"] != a["nets"]:
-            return "the nets changed"
-        if [m["name"] for m in b["mods"]] != [m["name"] for m in a["mods"]]:
-            return "the modules changed"
-        for mb, ma in zip(b["mods"], a["mods"]):
-            nm = mb["name"]
-            if (mb["area"], mb["regions"], mb["flags"]) != (ma["area"], ma["regions"], ma["flags"]):
-                return f"module {nm}: area or flags changed"
-            if [r[2:] for r in mb["rects"]] != [r[2:] for r in ma["rects"]]:
-                return f"module {nm}: the shapes of its rectangles changed"
-            fixed, hard, term = mb["flags"][0], mb["flags"][1], mb["flags"][2]
-            if fixed:
-                if mb["rects"] != ma["rects"]:
-                    return f"fixed module {nm}: rectangles moved"
-                if ma["center"] is not None and mb["center"] is not None:
-                    if any(abs(core.frac(p) - core.frac(q)) > 4 * ULP * max(size, abs(core.frac(q)))
-                           for p, q in zip(ma["center"], mb["center"])):
-                        return f"fixed module {nm}: centre moved from {mb['center']} to {ma['center']}"
-                continue
-            tol = 4 * ULP * size
-            if hard and mb["rects"]:
-                dx = [core.frac(ra[0]) - core.frac(rb[0]) for ra, rb in zip(ma["rects"], mb["rects"])]
-                dy_ = [core.frac(ra[1]) - core.frac(rb[1]) for ra, rb in zip(ma["rects"], mb["rects"])]
-                if max(dx) - min(dx) > tol or max(dy_) - min(dy_) > tol:
-                    return f"hard module {nm} was not moved rigidly: rectangle displacements {[(float(p), float(q)) for p, q in zip(dx, dy_)]}"
-            elif mb["rects"] != ma["rects"]:
-                return f"module {nm}: rectangles of a soft module changed"
-            if ma["center"] is not None:
-                pos = (core.frac(ma["center"][0]), core.frac(ma["center"][1]))
-            else:
-                pos = centroid(ma["rects"])
-                tol = 16 * ULP * size
-                if pos is None:
-                    return f"module {nm} has neither a centre nor rectangles after placement"
-            if not all(math.isfinite(float(p)) for p in pos):
-                return f"module {nm}: position not finite"
-            r = core.frac(math.sqrt(mb["area"] / math.pi))
-            ex = max(abs(pos[0] - W / 2) + r - W / 2, abs(pos[1] - H / 2) + r - H / 2)
-            if ex > tol:
-                return (f"module {nm}: the disc of radius {float(r)!r} centred at ({float(pos[0])!r}, {float(pos[1])!r}) "
-                        f"leaves the die {float(W)} x {float(H)} by {float(ex)!r}")
-        return None
+        return layout_oracle(case["W"], case["H"], obs["before"], obs["after"])
     return None
 
 
@@ -653,41 +1375,100 @@ def nontrivial(case):
     k = case["kind"]
     if k == "normalize":
         return len(case["xs"]) >= 2 and not all(case["fx"])
-    if k == "layout":
-        return True
+    if k == "rc":
+        return len(case["rects"]) >= 2
     return True
 
 
+def _obs_of(case):
+    try:
+        return run_impl(case)
+    except Exception as e:              # reported by run_cases as "implementation raised"
+        import traceback
+        return {"crash": f"{type(e).__name__}: {e}", "tb": traceback.format_exc()[-800:]}
+
+
+SIZES_QUICK = [9, 10, 11, 16, 17]
+SIZES_THOROUGH = [9, 10, 11, 15, 16, 17, 31, 32, 33, 64, 65]
+
+
 def run(ctx, out, replay=None):
+    global SAMPLE_ALL
     quick = ctx.quick()
-    nk = 1500 if quick else 30000
-    nd = 20 if quick else 150
-    nl = 60 if quick else 700
-    out.rule = ("kernels on dyadic vectors (normalize: entries k/8, zeros, entries at and around the 10e-10 threshold, "
-                "spans k/4 incl. 0, fixed flags; orthogonalize: 2-4 rows incl. the all-ones row, masses zero on fixed "
-                "nodes or not, parallel rows; centroids/dot/wirelength on random weighted graphs incl. isolated nodes "
-                "and zero weights); spectral_layout_die on random connected graphs (random / given / mixed start, fixed "
-                "nodes); Spectral.spectral_layout on connected netlists with 4-7 movable modules (soft with and without "
-                "centre, hard with 1-3 rectangles), 0-2 fixed modules, 0-2 fixed terminals, nets of arity 2-5 with "
-                "weights, dies k/4 and k/10, trial counts 0,1,2,3,5, seeds 0..9999, 6% with a module whose disc fills "
-                "the die up to 1e-8..0. non-trivial: kernels with >= 2 entries not all fixed; every die/layout case")
+    SAMPLE_ALL = not quick
+    nk = 1800 if quick else 24000
+    nd = 12 if quick else 80
+    nl = 24 if quick else 180
+    nc = 12 if quick else 60
+    ncli = 5 if quick else 30
+    out.rule = ("kernels on dyadic vectors (normalize: entries k/8, zeros, entries at, one ulp around and near the 10e-10 "
+                "threshold, spans k/4 incl. 0, fixed flags; orthogonalize: 2-4 rows incl. the all-ones row, masses zero on "
+                "fixed nodes or not, parallel rows, all nodes fixed, normalised dot product exactly at / one unit below / above "
+                "the 10e-12 assertion bound; centroids/dot/wirelength on random weighted graphs incl. isolated nodes and zero "
+                "weights); Module.recenter_rectangles driven directly (kind rc: module built directly or by a Netlist, 0-34 "
+                "rectangles, centre = area-weighted centre + per-axis offset 0 / below / exactly / above the distance epsilon / "
+                "grid / far, half of the cases with a coincidence in ONE axis only; histories: twice, new centre by setter or by "
+                "mutating the Point, add_rectangle, in-place edit of a rectangle, cached areas read in between, recenter before "
+                "any centre); spectral_layout_die on random connected graphs (random / given / mixed start incl. coordinates "
+                "0 and slightly negative, fixed nodes); Spectral.spectral_layout on connected netlists with 4-7 (some 9-17, "
+                "thorough up to 65) movable modules (soft with and without centre, hard with 1-3 rectangles), 0-2 fixed modules, "
+                "0-2 fixed terminals, nets of arity 2-5 with weights, dies k/4 and k/10, trial counts 0,1,2,3,5, seeds 0..9999, "
+                "6% with a module whose disc fills the die up to 1e-8..0, netlist as text or file, numbers as ints, names that "
+                "are prefixes of each other or YAML words, trunk listed last; kind chain: several calls on ONE Spectral object "
+                "(other dies / trial counts / seeds, the same call twice) and a second object built from the layout the first "
+                "returned with hard modules put back, per axis, on the returned coordinate / off by less or more than the "
+                "distance epsilon / where they started / at the die's edge with the disc sticking out. non-trivial: kernels "
+                "with >= 2 entries not all fixed; rc with >= 2 rectangles; every die/layout/chain case")
     first = []
     if replay and "case" in replay:
         first.append(fr.unjson(replay["case"]))
     first += fr.load_corpus("C14")
     rng = ctx.rng
     light, heavy = [], []
-    gens = [gen_normalize, gen_normalize, gen_normalize, gen_ortho, gen_ortho, gen_centroids, gen_dot, gen_wl]
+    gens = [gen_normalize, gen_normalize, gen_normalize, gen_ortho, gen_ortho, gen_centroids, gen_dot, gen_wl, gen_rc, gen_rc]
     for i in range(nk):
         light.append(gens[i % len(gens)](rng))
     for i in range(nd):
         heavy.append(gen_die(rng))
+    sizes = SIZES_QUICK if quick else SIZES_THOROUGH
     for i in range(nl):
-        heavy.append(gen_layout(rng))
+        big = sizes[(i // 12) % len(sizes)] if i % 12 == 11 else None
+        case = gen_layout(rng, big)
+        if big:
+            case["nf"] = min(case["nf"], 2)
+        heavy.append(decorate(rng, case) if i % 2 else case)
+    for i in range(nc):
+        big = sizes[(i // 6) % len(sizes)] if i % 6 == 5 else None
+        case = gen_chain(rng, min(big, 33) if big else None)
+        if big:
+            for ph in case["phases"]:
+                for call in ph["calls"]:
+                    call["nf"] = min(call["nf"], 2)
+        heavy.append(case)
+    for i in range(ncli):
+        heavy.append(gen_cli(rng))
     mon = {"calls": 0, "tiny_entries": 0, "bound_broken": 0, "worst_excess": 0.0, "returned": 0, "raised": {}}
 
+    # the runs of the implementation are independent of each other (every case seeds `random` and resets the
+    # class-level epsilon itself): the heavy ones are run in worker processes, in a fixed order
+    import multiprocessing
+    import time
+    t0 = time.time()
+    pre = {}
+    try:
+        with multiprocessing.get_context("fork").Pool(6 if quick else 8) as pool:
+            for i, obs in enumerate(pool.map(_obs_of, heavy, chunksize=1)):
+                pre[id(heavy[i])] = obs
+    except Exception:
+        pre = {}
+    t_pre = round(time.time() - t0, 1)
+
     def run_mon(case):
-        obs = run_impl(case)
+        obs = pre.pop(id(case), None)
+        if obs is None:
+            obs = run_impl(case)
+        if "crash" in obs:
+            raise RuntimeError(obs["crash"])
         m = obs.get("monitor")
         if m:
             for key in ("calls", "tiny_entries", "bound_broken"):
@@ -699,12 +1480,18 @@ def run(ctx, out, replay=None):
                 mon["raised"][obs.get("raised", "?")] = mon["raised"].get(obs.get("raised", "?"), 0) + 1
         return obs
 
-    agreements = 0
-    for batch, shard, shr in ((first, 6, shrink), (light, 250, shrink), (heavy, 6, None)):
+    def dkey(c):
+        return c["kind"] + ("/" + c["style"] if c["kind"] in ("chain", "rc") else "")
+
+    agreements, timing = 0, {"implementation_on_layouts": t_pre}
+    for name, batch, shard, shr in (("corpus", first, 6, shrink), ("kernels", light, 250, shrink), ("layouts", heavy, 3, None)):
         if not batch:
             continue
-        fr.run_cases(ctx, out, batch, run_mon, to_coq, oracle, failure_key, HEADER, dist_key=lambda c: c["kind"],
+        t0 = time.time()
+        fr.run_cases(ctx, out, batch, run_mon, to_coq, oracle, failure_key, HEADER, dist_key=dkey,
                      nontrivial=nontrivial, shard=shard, shrink=shr)
         agreements += out.extra.get("model_impl_agreements", 0)
+        timing[name] = round(time.time() - t0, 1)
+    out.extra["wall_by_batch_s"] = timing
     out.extra["model_impl_agreements"] = agreements
     out.extra["normalize_monitor"] = mon
